@@ -56,6 +56,12 @@ def sources(tier, wd, out, per_focus_quick=250, per_focus_thorough=1200, foci=FO
                      '<g opacity="0.5"><rect width="4" height="4"/>%s</g><rect x="6" width="3" height="3"/>'):
             res.append(("family/unsupported-in-group", '<svg xmlns="http://www.w3.org/2000/svg" viewBox="0 0 16 16">'
                         '<g opacity="0.5">%s</g><rect x="9" y="9" width="5" height="5"/></svg>' % (body % u), None))
+    # character data outside text content (renderers ignore it; a picosvg has none)
+    for body in ('<g opacity="0.5">abc<rect width="4" height="4"/>def<rect x="2" y="2" width="4" height="4"/>ghi</g>',
+                 'top<rect width="4" height="4"/>tail', '<defs>x<linearGradient id="a">y<stop offset="0" stop-color="red"/>z</linearGradient></defs>'
+                 '<rect width="4" height="4" fill="url(#a)"/>', '<rect width="4" height="4">inside</rect>',
+                 '<g>a<g opacity="0.5">b<path d="M0,0 L4,0 L4,4 Z">c</path>d<rect x="5" width="3" height="3"/>e</g>f</g>'):
+        res.append(("family/stray-character-data", '<svg xmlns="http://www.w3.org/2000/svg" viewBox="0 0 16 16">%s</svg>' % body, None))
     # stops that carry ids, the gradient cloned for transformed users (a clone must not repeat an id)
     for body in ('<rect width="5" height="5" fill="url(#a)"/><rect width="5" height="5" fill="url(#a)" transform="translate(6,0)"/>',
                  '<rect width="5" height="5" fill="url(#a)" transform="translate(0,6)"/><rect width="5" height="5" fill="url(#a)" transform="translate(6,0)"/>',
